@@ -357,24 +357,41 @@ func runDriver(c *Ctx) int {
 	}
 	m := newPart()
 	var all []uint64
+	parts := make([]Part, n)
 	for i := 0; i < n; i++ {
 		b, err := os.ReadFile(filepath.Join(c.Scratch, fmt.Sprintf("part_%d.json", i)))
 		if err != nil {
 			fmt.Println("HARNESS-ERROR:", err)
 			return 2
 		}
-		var p Part
-		if err := json.Unmarshal(b, &p); err != nil {
+		if err := json.Unmarshal(b, &parts[i]); err != nil {
 			fmt.Println("HARNESS-ERROR:", err)
 			return 2
 		}
+	}
+	// second complete runs of the shards that saw a non-repeating violation: all at once
+	type rr struct {
+		p   *Part
+		err error
+	}
+	reruns := map[int]chan rr{}
+	for i := 0; i < n; i++ {
+		if len(parts[i].FlakyV) > 0 {
+			ch := make(chan rr, 1)
+			reruns[i] = ch
+			go func(i int) { p2, err := rerunShard(c, i, n); ch <- rr{p2, err} }(i)
+		}
+	}
+	for i := 0; i < n; i++ {
+		p := parts[i]
 		if len(p.FlakyV) > 0 {
 			// A case violated the oracle but did not do so again when it was repeated at once in the same process.
 			// The harness makes no random choice, so either the program under test carries state from one line to
 			// the next (then the whole deterministic enumeration of this shard, run again in a fresh process, hits
 			// the same case in the same state and shows the same signature again) or something is really
 			// nondeterministic (then it does not).  Only the first is reported as a violation.
-			p2, err := rerunShard(c, i, n)
+			r2 := <-reruns[i]
+			p2, err := r2.p, r2.err
 			if err != nil {
 				fmt.Println("HARNESS-ERROR: re-running shard", i, ":", err)
 				return 2
@@ -420,7 +437,7 @@ func runDriver(c *Ctx) int {
 
 // rerunShard runs one shard worker again in a fresh process with its own scratch directory and returns its part.
 func rerunShard(c *Ctx, i, n int) (*Part, error) {
-	scr := filepath.Join(c.Scratch, "rerun")
+	scr := filepath.Join(c.Scratch, "rerun", fmt.Sprint(i))
 	os.MkdirAll(scr, 0o755)
 	cmd := exec.Command(c.Self)
 	cmd.SysProcAttr = &syscall.SysProcAttr{Pdeathsig: syscall.SIGKILL}
